@@ -70,6 +70,7 @@ type loaded struct {
 	dirs     []directive
 	fileOf   map[string]string // virtual file -> harness group (source dir)
 	loadS    float64
+	dropped  []string // white-box harness files left out (do not type-check against this tree)
 }
 
 func load(repo, verif string, groups []string) (*loaded, error) {
@@ -136,31 +137,73 @@ func load(repo, verif string, groups []string) (*loaded, error) {
 			}
 		}
 	}
-	cfg := &packages.Config{
-		Mode:    packages.LoadAllSyntax,
-		Dir:     repo,
-		Overlay: overlay,
-		Env:     append(os.Environ(), "GOFLAGS=-mod=mod", "GOPROXY=off", "GOSUMDB=off", "GOTOOLCHAIN=local"),
-	}
-	initial, err := packages.Load(cfg, patterns...)
-	if err != nil {
-		return nil, err
-	}
-	nerr := 0
-	packages.Visit(initial, nil, func(p *packages.Package) {
-		for _, e := range p.Errors {
-			if nerr < 20 {
-				fmt.Fprintf(os.Stderr, "load error: %s: %v\n", p.PkgPath, e)
-			}
-			nerr++
+	// White-box harness files (*_wb.go) call unexported functions that no test of the
+	// repository pins down. When such a file no longer type-checks against the tree
+	// (a helper was renamed, its signature changed) it is left out, with a note: the
+	// harnesses that drive the exported API and test-pinned functions still decide the property.
+	var initial []*packages.Package
+	var dropped []string
+	for attempt := 0; ; attempt++ {
+		cfg := &packages.Config{
+			Mode:    packages.LoadAllSyntax,
+			Dir:     repo,
+			Overlay: overlay,
+			Env:     append(os.Environ(), "GOFLAGS=-mod=mod", "GOPROXY=off", "GOSUMDB=off", "GOTOOLCHAIN=local"),
 		}
-	})
-	if nerr > 0 {
-		return nil, fmt.Errorf("%d package load errors (the tree does not compile with the harness overlay)", nerr)
+		var err error
+		initial, err = packages.Load(cfg, patterns...)
+		if err != nil {
+			return nil, err
+		}
+		nerr := 0
+		var msgs []string
+		bad := map[string]string{}
+		onlyWB := true
+		packages.Visit(initial, nil, func(p *packages.Package) {
+			for _, e := range p.Errors {
+				if nerr < 20 {
+					msgs = append(msgs, fmt.Sprintf("load error: %s: %v", p.PkgPath, e))
+				}
+				nerr++
+				file := e.Pos
+				if i := strings.Index(file, ":"); i >= 0 {
+					file = file[:i]
+				}
+				if _, isOverlay := overlay[file]; isOverlay && strings.HasSuffix(file, "_wb.go") {
+					if _, seen := bad[file]; !seen {
+						bad[file] = e.Msg
+					}
+				} else {
+					onlyWB = false
+				}
+			}
+		})
+		if nerr == 0 {
+			break
+		}
+		if !onlyWB || len(bad) == 0 || attempt >= 3 {
+			for _, m := range msgs {
+				fmt.Fprintln(os.Stderr, m)
+			}
+			return nil, fmt.Errorf("%d package load errors (the tree does not compile with the harness overlay)", nerr)
+		}
+		for f, msg := range bad {
+			delete(overlay, f)
+			dropped = append(dropped, filepath.Base(f)+": "+msg)
+			fmt.Fprintf(os.Stderr, "NOTE: white-box harness file %s does not apply to this tree (%s); left out\n", filepath.Base(f), msg)
+			var kept []directive
+			for _, d := range dirs {
+				if d.file != f {
+					kept = append(kept, d)
+				}
+			}
+			dirs = kept
+		}
 	}
+	sort.Strings(dropped)
 	prog, pkgs := ssautil.AllPackages(initial, ssa.InstantiateGenerics)
 	prog.Build()
-	l := &loaded{prog: prog, pkgs: pkgs, dirs: dirs}
+	l := &loaded{prog: prog, pkgs: pkgs, dirs: dirs, dropped: dropped}
 	// repository packages in dependency order
 	var order []*ssa.Package
 	seen := map[string]bool{}
@@ -227,7 +270,7 @@ func buildEngine(l *loaded, h harnessRef, base sym.Config) (*sym.Engine, error) 
 	for k, v := range base.Merge {
 		cfg.Merge[k] = v
 	}
-	cfg.Transparent = append([]string{modPath + "/", "errors", "encoding/binary", "encoding/hex", "time", "sort", "math/bits", "bytes", "strings", "strconv", "unicode", "unicode/utf8", "slices", "cmp", "encoding/asn1", "container/list"}, base.Transparent...)
+	cfg.Transparent = append([]string{modPath + "/", "errors", "encoding/binary", "encoding/hex", "time", "sort", "math/bits", "bytes", "strings", "strconv", "unicode", "unicode/utf8", "slices", "cmp", "encoding/asn1", "container/list", "io", "crypto/subtle", "sync/atomic", "internal/stringslite", "internal/bytealg", "internal/byteorder", "internal/itoa"}, base.Transparent...)
 	eng := sym.NewEngine(l.prog, cfg)
 	// initialise only the repository packages the harness's package depends on
 	need := map[string]bool{}
@@ -297,7 +340,8 @@ func main() {
 	groups := flag.String("groups", "", "comma separated harness groups (directories under harness/)")
 	match := flag.String("match", "^H", "regexp selecting harness functions")
 	out := flag.String("out", "", "write JSON reports to this file")
-	jobs := flag.Int("j", 8, "parallel harness runs")
+	jobs := flag.Int("j", 8, "cores: harnesses and path workers running at once")
+	pworkers := flag.Int("pj", 16, "at most this many path workers per harness (each an engine and solver process of its own)")
 	verbose := flag.Int("v", 0, "verbosity")
 	solver := flag.String("solver", "z3", "z3 | z3-new | cvc5")
 	qto := flag.Int("query-timeout", 20000, "per-query timeout (ms)")
@@ -362,7 +406,46 @@ func main() {
 				mu.Unlock()
 				return
 			}
-			rep := eng.Run(h.fn)
+			// further workers are started while prefixes are waiting and a core is free
+			sh := sym.NewShared(eng.Cfg)
+			var wmu sync.Mutex
+			var wwg sync.WaitGroup
+			extra := []*sym.Report{}
+			nworkers := 1
+			var spawn func()
+			spawn = func() {
+				wmu.Lock()
+				defer wmu.Unlock()
+				if nworkers >= *pworkers || sh.Pending() < 2 {
+					return
+				}
+				select {
+				case sem <- struct{}{}:
+				default:
+					return
+				}
+				weng, err := buildEngine(l, h, cfg)
+				if err != nil {
+					<-sem
+					return
+				}
+				nworkers++
+				wwg.Add(1)
+				go func() {
+					defer wwg.Done()
+					r := weng.RunShared(h.fn, sh, false, spawn)
+					<-sem
+					wmu.Lock()
+					nworkers--
+					extra = append(extra, r)
+					wmu.Unlock()
+				}()
+			}
+			rep := eng.RunShared(h.fn, sh, true, spawn)
+			wwg.Wait()
+			wall := rep.WallS
+			rep = sym.MergeReports(append([]*sym.Report{rep}, extra...))
+			rep.WallS = wall
 			mu.Lock()
 			reports[i] = rep
 			fmt.Fprintf(os.Stderr, "%-40s paths=%d findings=%d inconclusive=%d queries=%d solver=%.1fs wall=%.1fs\n",
@@ -371,7 +454,7 @@ func main() {
 		}(i, h)
 	}
 	wg.Wait()
-	res := map[string]interface{}{"load_s": l.loadS, "reports": reports}
+	res := map[string]interface{}{"load_s": l.loadS, "reports": reports, "dropped_whitebox_files": l.dropped}
 	data, _ := json.MarshalIndent(res, "", " ")
 	if *out != "" {
 		os.WriteFile(*out, data, 0o644)
